@@ -188,6 +188,37 @@ def tree_energies(tree_j, names, aux):
     return en
 
 
+def _nodes(j):
+    yield j
+    for x in j[1:]:
+        if isinstance(x, list):
+            yield from _nodes(x)
+
+
+def refusal_justified(err, fmt, argbits, merged_j):
+    """is there a reason (visible in the merged expressions / the format, not in bqm.py) for the exception
+    class the real code raised?  Which reason wins when there are several is left to the model comparison."""
+    if err == "UnknownFormat":
+        return fmt not in FMTS
+    if err == "Empty":
+        return len(merged_j) == 0
+    if err == "NoCompile":
+        return len(merged_j) > 0 and all(e[0] in ("tt", "ff") for _, e in merged_j)
+    if err == "Untranslatable":
+        return any(n[0] in ("ite", "imp") for _, e in merged_j for n in _nodes(e))
+    if err == "TypeError":
+        return any((n[0] == "or" and len(n) != 3) or (n[0] in ("and", "xor") and len(n) < 3)
+                   for _, e in merged_j for n in _nodes(e))
+    if err == "KeyError":
+        known = set(argbits)
+        for s, e in merged_j:
+            known.add(s)
+            if any(n[0] == "sym" and n[1] not in known for n in _nodes(e)):
+                return True
+        return False
+    return False
+
+
 # ------------------------------------------------------------------ one case on the real code
 
 
@@ -303,10 +334,8 @@ def evaluate_case(ctx, res: Result, case, reqs, pending):
             if dep and b not in tv:
                 failures.append(("an argument bit the function depends on is not in the model", dict(bit=b)))
                 break
-    elif fmt in FMTS and err not in ("TypeError", "Untranslatable", "NoCompile", "Empty", "KeyError"):
-        failures.append(("to_bqm raised an unexpected exception", dict(error=err)))
-    elif fmt not in FMTS and err not in ("UnknownFormat", "TypeError", "Untranslatable", "NoCompile", "Empty", "KeyError"):
-        failures.append(("to_bqm raised an unexpected exception", dict(error=err)))
+    elif not refusal_justified(err, fmt, names, merged_j):
+        failures.append(("to_bqm refused a function it has no stated reason to refuse", dict(error=err)))
     # model requests: current behaviour (active quirks) and, for attribution, explicitly with the quirk
     active = [f["quirk"] for f in ctx.findings if f.get("_active") and f.get("quirk")]
     base = dict(op="c18.tobqm", argbits=names, merged=merged_j, fmt=fmt)
@@ -483,7 +512,7 @@ def gen_program(rng):
         else:
             body.append(f"    t{k} = {gen_int(rng, env, 1)}")
     rk = rng.random()
-    d = rng.choice([1, 2, 2, 3])
+    d = rng.choice([2, 2, 3, 3])
     if rk < 0.55:
         rt, rexp = "bool", gen_bool(rng, env, d)
     elif rk < 0.8:
@@ -523,12 +552,15 @@ def gen_direct(rng):
     leaves = [b for _, bv in args for b in bv]
     exprs = []
     for k in range(rng.choice([0, 0, 1, 2, 3])):
-        exprs.append([f"x{k}", gen_bexp(rng, leaves, rng.choice([1, 2]))])
-        leaves = leaves + [f"x{k}"]
+        # now and then an intermediate name is defined a second time (the later definition wins)
+        nm = f"x{k}" if (k == 0 or rng.random() < 0.7) else f"x{rng.randrange(k)}"
+        exprs.append([nm, gen_bexp(rng, leaves, rng.choice([1, 2]))])
+        if nm not in leaves:
+            leaves = leaves + [nm]
     nret = rng.choice([1, 1, 2, 3])
     for k in range(nret):
         nm = "_ret" if nret == 1 else f"_ret.{k}"
-        exprs.append([nm, gen_bexp(rng, leaves, rng.choice([0, 1, 2, 3]))])
+        exprs.append([nm, gen_bexp(rng, leaves, rng.choice([0, 1, 1, 2, 2, 2, 3, 3]))])
     r = rng.random()
     fmt = rng.choice(FMTS) if r < 0.93 else rng.choice(["bqn", "", "QUBO"])
     if rng.random() < 0.02:
@@ -661,8 +693,8 @@ def run(ctx: Ctx) -> Result:
     for src in SYSTEMATIC:
         for fmt in FMTS:
             cases.append(dict(kind="prog", src=src, fmt=fmt))
-    n_prog = 1500 if ctx.thorough else 220
-    n_direct = 6000 if ctx.thorough else 900
+    n_prog = 2500 if ctx.thorough else 350
+    n_direct = 12000 if ctx.thorough else 1500
     for _ in range(n_prog):
         cases.append(dict(kind="prog", src=gen_program(rng), fmt=rng.choice(FMTS)))
     for _ in range(n_direct):
